@@ -144,6 +144,29 @@ Proof.
 Qed.
 Print Assumptions C01_prune_sound_partial.
 
+From T4V Require Import C01.ProofsEmpty.
+
+(* remove_empty_volumes, for a table with distinct keys: every surviving volume
+   keeps its denotation for every sigma consistent on the helper planes it is
+   given; only volumes whose denotation is false for every such sigma are
+   deleted (patently empty ones, e.g. the stand-in of an empty referenced cell,
+   and the INTE volumes using a deleted one); UNION operands pointing at deleted
+   volumes are dropped and a patently empty UNION volume gets the EQUA
+   PLUS u0 MINUS u1, which denotes false under the consistency fact; nothing is
+   added and FICTIVE flags are kept.  The loop terminates within the model's fuel
+   (each later round deletes a volume), so no fuel hypothesis is needed. *)
+Theorem C01_remove_empty_sound : forall u0 u1 d0, NoDup (keys d0) ->
+  NoDup (keys (remove_empty u0 u1 d0)) /\
+  (forall id v', lookup id (remove_empty u0 u1 d0) = Some v' ->
+     exists v, lookup id d0 = Some v /\ v_fict v' = v_fict v) /\
+  forall sigma, consistent sigma u0 u1 ->
+    (forall id v' b, lookup id (remove_empty u0 u1 d0) = Some v' -> Vden sigma d0 id b ->
+       Vden sigma (remove_empty u0 u1 d0) id b) /\
+    (forall id v b, lookup id d0 = Some v -> lookup id (remove_empty u0 u1 d0) = None ->
+       Vden sigma d0 id b -> b = false).
+Proof. exact remove_empty_sound. Qed.
+Print Assumptions C01_remove_empty_sound.
+
 (* non-vacuity: five cells (three converted, one of importance 0, one filler kept
    by reference), a union without pure-intersection member, a surface of
    reversed side; every hypothesis of C01_cells / C01_partition_partial holds *)
